@@ -161,7 +161,7 @@ func TestC09(t *testing.T) {
 	}
 	fail := func(sample any, format string, args ...any) {
 		msg := fmt.Sprintf(format, args...)
-		path := fmt.Sprintf("%s/replays/C09/viol-TestC09-%x.json", verifDir(), stats.Sig(msg))
+		path := fmt.Sprintf("%s/viol-TestC09-%x.json", violDir("C09"), stats.Sig(msg))
 		writeReplay(path, "C09", "TestC09", sample, msg)
 		stats.AddViolation(stats.Violation{Property: "C09", Replay: path, Message: msg})
 		t.Errorf("%s", msg)
